@@ -262,6 +262,13 @@ class CallGraph:
             if f.id == 'super':
                 return [], 'super()'
             tgt = self.resolve_static(fi, f, locals_)
+            if tgt is None and fi.cls is not None and fi.kind == 'classmethod' and fi.params() and f.id == fi.params()[0] \
+                    and fi.parent is None:
+                # cls(...) in a classmethod constructs the class it is called on
+                out = []
+                for c in self.classes_for_self(fi):
+                    out.extend(m for m in self.ctor_edges(fi, c) if m not in out)
+                return out, 'cls()'
             if f.id in locals_ and tgt is None:
                 bound = self._local_callable(fi, f.id, locals_)
                 if bound is not None:
